@@ -93,11 +93,11 @@ def run (P : Params W) (chunks : List (List UInt8)) : Option (List UInt8) :=
     counter moves in steps of 8 from 0 this is: the new value is below 8 -/
 def corrupt64 (l : Nat) : Bool := l < 8
 
-/-- SHA384_512AddLength, USE_32BIT_ONLY variant as compiled: `Length[3] == 0 && Length[2] == 0 && Length[1] == 0 && Length[0] < 8`
-    with Length[0] the MOST significant word — true after a wrap to 0, but also when the bit length reaches k·2^96, k = 1..7
-    (messages of k·2^93 bytes are refused although the 128-bit counter has not overflowed; far beyond any feasible input) -/
+/-- SHA384_512AddLength, USE_32BIT_ONLY variant as compiled (Length[4] of uint32_t, Length[0] most significant), in the RFC 6234
+    form the library has since 91cb094: `Length[3] < (length) && Length[2] == 0 && Length[1] == 0 && Length[0] == 0` with
+    length = 8 — the updated 128-bit counter is smaller than what was added, i.e. it wrapped -/
 def corrupt128w (l : Nat) : Bool :=
-  l % 2 ^ 32 == 0 && (l / 2 ^ 32) % 2 ^ 32 == 0 && (l / 2 ^ 64) % 2 ^ 32 == 0 && decide (l / 2 ^ 96 < 8)
+  decide (l % 2 ^ 32 < 8) && (l / 2 ^ 32) % 2 ^ 32 == 0 && (l / 2 ^ 64) % 2 ^ 32 == 0 && (l / 2 ^ 96) % 2 ^ 32 == 0
 
 def sha224P : Params UInt32 :=
   { blockSize := 64, lenBytes := 8, compress := Sha256.compress, h0 := Sha256.H0_224, digest := Sha256.digestBytes, hashSize := 28,
